@@ -412,6 +412,22 @@ def pushed_between(body, tr, fld, tgt, bb):
         if body.dominates(tgt, b2) and body.dominates(b2, bb):
             if field_of_arg(tr, t["args"][0]) == fld:
                 return True
+    # the push factored into a method of the object that owns the collection: `state.enter(..)` whose every path pushes onto self.<fld>
+    crate = body.crate
+    for b2, t in body.calls():
+        if b2 == bb or not (body.dominates(tgt, b2) and body.dominates(b2, bb)) or not t["args"]:
+            continue
+        h = None
+        for n in callee_names(t):
+            h = crate.bodies.get(n) or h
+        if h is None or h is body or h.kind not in ("fn", "assoc_fn"):
+            continue
+        htr = Tracer(h)
+        hp = [hb for hb, ht in find_calls(h, ["std::vec::Vec::<T, A>::push"])
+              if (lambda ls: bool(ls) and all(l.kind == "param" and l.detail == 1 and l.projs and [p for p in l.projs if p.startswith(".")][-1:] == [fld] for l in ls))(
+                  [l for l in htr.operand(ht["args"][0]) if l.kind != "cycle"])]
+        if hp and all(any(h.dominates(p, r) for p in hp) for r in h.return_blocks()):
+            return True
     return False
 
 
